@@ -229,6 +229,11 @@ pub struct HsCase {
     mutation: Option<Vec<u16>>,
     /// Cut the frame after this many bytes and close.
     truncate: Option<u16>,
+    /// Reflection (outbound victim only): the adversary holds no key at all and answers with the victim's own handshake
+    /// frame, byte for byte. `Some(true)`: the victim dialled its own key (what the validator network's loopback
+    /// connection does); `Some(false)`: it dialled key `dialled`.
+    #[serde(default)]
+    reflect: Option<bool>,
 }
 
 fn gen_hs(ch: &mut Choices) -> HsCase {
@@ -245,7 +250,15 @@ fn gen_hs(ch: &mut Choices) -> HsCase {
         dialled: if honest || ch.chance(2, 3) { named } else { ch.below(4) },
         mutation: ch.chance(1, 8).then(|| (0..30).map(|_| ch.raw()).collect()),
         truncate: ch.chance(1, 12).then(|| ch.below(200) as u16),
+        reflect: None,
     }
+}
+
+fn gen_reflect(ch: &mut Choices) -> HsCase {
+    let consensus = ch.chance(2, 3);
+    // gossip nodes never dial their own key; validators do (loopback connection to their public address)
+    let own = consensus && ch.chance(2, 3);
+    HsCase { consensus, victim_outbound: true, signer: 0, named: 0, session: Sess::This, genesis_same: true, dialled: ch.below(4), mutation: None, truncate: None, reflect: Some(own) }
 }
 
 pub fn gossip_cfg(key: &node::SecretKey) -> Config {
@@ -375,6 +388,33 @@ fn check_hs(case: &HsCase, st: &mut Stats) -> Result<(), String> {
         let cut = case.truncate.is_some_and(|t| (t as usize) < frame.len() + 4);
         let genuine = case.signer == case.named && case.session == Sess::This && case.genesis_same && !cut;
         let victim_key = 9usize; // the honest party's own key
+        if let (Some(own), true) = (case.reflect, case.victim_outbound) {
+            // the adversary proves nothing: it sends the victim's own frame back
+            let adv = async {
+                if let Some(f) = read_frame(&mut res).await {
+                    write_frame(&mut res, &f, None).await;
+                }
+                res
+            };
+            let got: Result<String, String> = if case.consensus {
+                let dk = if own { vk[victim_key].public() } else { vk[case.dialled].public() };
+                with_adversary(hook::consensus::handshake_outbound(ctx, &vk[victim_key], g, &mut ini, &dk), adv).await.map(|()| format!("{dk:?}"))
+            } else {
+                let cfg = gossip_cfg(&nk[victim_key]);
+                let dk = if own { nk[victim_key].public() } else { nk[case.dialled].public() };
+                with_adversary(hook::gossip::handshake_outbound(ctx, &cfg, g, &mut ini, &dk), adv).await.map(|k| format!("{k:?}"))
+            };
+            st.class(if own { "reflection_on_a_self_dial" } else { "reflection_on_a_dial_of_another_key" });
+            st.nontrivial(common::fingerprint(case));
+            st.sample(|| serde_json::json!({"case": case, "result": format!("{got:?}")}));
+            return match got {
+                Err(_) => Ok(()),
+                Ok(k) if own && case.consensus => Err(format!(
+                    "validator_net_outbound: REFLECTION: a self-dial (loopback) was attributed to the node's own validator key {k} although the remote end holds no key and only echoed the node's own handshake frame"
+                )),
+                Ok(k) => Err(format!("outbound handshake attributed the connection to {k} although the remote end holds no key and only echoed the victim's own handshake frame (consensus={}, self-dial={own})", case.consensus)),
+            };
+        }
         let (got, expect): (Result<String, String>, Option<String>) = if case.victim_outbound {
             // adversary = responder: reads the victim's frame, answers with `frame`
             let adv = async {
@@ -769,7 +809,7 @@ pub fn main(env: &Env) -> i32 {
         let (part, case) = Env::read_replay(&path);
         let r = match part.as_str() {
             "pool" => common::replay_case::<PoolCase>(case, check_pool),
-            "handshake" => common::replay_case::<HsCase>(case, check_hs),
+            "handshake" | "reflection" => common::replay_case::<HsCase>(case, check_hs),
             "relay" => common::replay_case::<RelayCase>(case, check_relay),
             "admission" => common::replay_case::<AdmCase>(case, check_adm),
             "pool_threads" => common::replay_case::<PoolThreadsCase>(case, check_pool_threads),
@@ -787,6 +827,15 @@ pub fn main(env: &Env) -> i32 {
          oracle = ground truth: the function may return identity K only if K's secret key signed this very session's id under the same genesis (and for outbound K is the dialled key); genuine handshakes must succeed. Non-trivial = the signature verifies under the named key but the connection must still be refused",
         PartOpts { cases: env.tier.pick(8_000, 200_000), max_shrink_iters: 300, samples: 3 },
         || Choices::strategy(60).prop_map(|mut ch| gen_hs(&mut ch)),
+        check_hs,
+    ));
+    parts.push(run_proptest(
+        env,
+        "reflection",
+        "the real outbound handshake functions against a counterpart that holds no key at all and answers with the victim's own signed handshake frame, byte for byte (same session, same genesis, valid signature - made by the victim itself); the victim dialled another key (both networks) or its own key (validator network only: that is what a validator's loopback connection to its public address does; gossip nodes never dial themselves); \
+         oracle: the function must not attribute the connection to anybody. Every case is non-trivial",
+        PartOpts { cases: env.tier.pick(400, 8_000), max_shrink_iters: 40, samples: 2 },
+        || Choices::strategy(8).prop_map(|mut ch| gen_reflect(&mut ch)),
         check_hs,
     ));
     parts.push(run_proptest(
